@@ -53,6 +53,14 @@ struct KeyCtx {
 
 // seeds the library generator (the only randomness the library has)
 void lib_seed(uint64_t seed);
+// Runs fn(arg) in a short-lived thread and returns once that thread has exited completely (thread_local destructors
+// included).  The thread is created DETACHED and its exit is awaited through its kernel task id, not by pthread_join:
+// the sanitizer runtime of this image (gcc 12 libasan) keeps the registry entry of a joined thread in state "finished"
+// with its old kernel tid for ever; pid_max is 32768 here, so after a few minutes of a loaded batch the kernel hands the
+// same tid to a new thread, LeakSanitizer looks the live thread up by tid, finds the stale entry first, skips the live
+// thread's stack and TLS and reports everything referenced only from there as leaked (seen as irreproducible C16.leak
+// reports whose stacks included the scenario's own live locals).  Entries of detached threads are retired and never matched.
+void run_in_thread(void *(*fn)(void *), void *arg, size_t stack = 8u << 20);
 // builds a parameter set from a spec (default sets through the library's own selector)
 TFheGateBootstrappingParameterSet *make_params(const ParamSpec &sp);
 // cached per worker; generated deterministically from (spec, kseed)
